@@ -362,6 +362,9 @@ Inductive query :=
 | QOffset (shape strides idx : list N)
 | QWeak (shape strides idx : list N) (n : N)
 | QArray (shape strides : list N) (n : N) (base : list N) (dim : nat) (M : nat)
+(* an owned tensor reached by a history of append / transpose / permute calls (state: shape,
+   strides, Vec length n and capacity cap), then has_capacity(axis, new_size) *)
+| QHist (shape strides : list N) (n cap : N) (axis : nat) (new_size : N)
 | QSkip.
 Record case := {
   c_mode : mode; c_kind : kind; c_q : query;
@@ -414,6 +417,8 @@ Definition model_gen (old : bool) (c : case) : outcome :=
       let '(sh, st) := norm k shape strides in offset_out (offset_k m k sh st idx)
   | QWeak shape strides idx n => weak_index m (snd (norm k shape strides)) idx n
   | QArray shape strides n base dim M => array_offsets m shape strides base dim M
+  | QHist shape strides _ cap axis v => if old then has_capacity_old m k shape strides cap axis v
+                                        else has_capacity m k shape strides cap axis v
   | QSkip => c_out c
   end.
 Definition model := model_gen false.
@@ -469,6 +474,18 @@ Definition prop_ok (c : case) : bool :=
   | QArray _ _ n _ _ _, OffList l => forallb (fun o => o <? n) l
   | QArray _ _ _ _ _ _, PanicOverflow => false
   | QArray _ _ _ _ _ _, _ => true
+  | QHist shape strides n cap axis v, o =>
+      (* every state a history of safe calls reaches keeps the promise and stays alias-free *)
+      inv_b shape strides n && (n <=? cap)
+      && (if c_small c then injective_b (combine strides shape) else true)
+      && match o with
+         | CapYes => match resize_dim (c_kind c) shape strides axis v with
+                     | Some (sh, st) => inv_b sh st cap && (if c_small c then injective_b (combine st sh) else true)
+                     | None => false
+                     end
+         | PanicOverflow => false
+         | _ => true
+         end
   | QSkip, _ => true
   end.
 
